@@ -297,6 +297,29 @@ theorem url_new_slash (s : Str) : ∃ t, (Url.new s).str = '/' :: t := by
   · rename_i t; exact ⟨t, rfl⟩
   · exact ⟨s, rfl⟩
 
+/-! ## start-up and hand-over facts -/
+
+theorem isDir_new_slash (s : Str) : (Url.new (s ++ ['/'])).isDir = true := by
+  have h1 : (s ++ ['/']).getLast? = some '/' := by simp
+  have h2 : ('/' :: (s ++ ['/'])).getLast? = some '/' := by
+    exact (List.getLast?_concat (l := '/' :: s) (a := '/'))
+  unfold Url.new
+  split
+  · simp [Url.isDir, h1]
+  · simp only [Url.isDir, h2]; rfl
+
+/-- `add_static_source` always hands a directory URL to `StaticSource::new`, so its
+    `ensure!(prefix.is_dir())` cannot fail – whatever prefix text the command line gives -/
+theorem mkPrefix_isDir (p : Str) : (mkPrefix p).isDir = true := by
+  unfold mkPrefix Url.asDir
+  split
+  · assumption
+  · exact isDir_new_slash _
+
+example : tarSteps ['a', '.', 't', 'a', 'r', '.', 'b', 'r', '.', 'g', 'z'] = some [.gz, .br] := by decide
+example : tarSteps ['/', 'x', '.', 'y', '/', 'a', '.', 't', 'a', 'r'] = some [] := by decide
+example : tarSteps ['a', '.', 't', 'g', 'z'] = none := by decide
+
 /-! ## non-vacuity -/
 
 def fsOk : FS :=
